@@ -289,8 +289,13 @@ def checkOps (c0 : Case) : CaseResult := Id.run do
         if (kind == "rzle" || kind == "move") && beforeOk && jinvb cur.s && !jinvb after.s then
           specfail := specfail <|> some s!"step {i} ({kinds}): junction bookkeeping inconsistent after the rewrite (junction map / deleted list / roots vs. the junctions carried by tree nodes)"
         if (kind == "rzle" || kind == "move") && beforeOk && afterOk then
+          -- not failures: the as-coded rewrites merge leaves when the side conditions of
+          -- Props/C12Ops (`*_same_terminals`) do not hold; counted to show that this happens
           if after.s.t.leaves.length != cur.s.t.leaves.length then
-            stats := bumpStats stats "ops.leaf-count-changed" 1
+            stats := bumpStats stats s!"ops.leaf-count-changed.{kind}" 1
+          let nsrc (t : HTree) : Nat := (t.nodes.filter (·.isConnectorSource)).length
+          if nsrc after.s.t < nsrc cur.s.t then
+            stats := bumpStats stats s!"ops.source-flag-dropped.{kind}" 1
         cur := after
     stats := bumpStats stats s!"ops.steps" (nsteps - 1)
     match specfail, diverge with
